@@ -2,6 +2,8 @@ package harness
 
 import (
 	"bytes"
+	"com.tuntun.rangers/node/src/consensus/access"
+	"com.tuntun.rangers/node/src/consensus/groupsig"
 	"encoding/json"
 	"fmt"
 	"math"
@@ -61,7 +63,7 @@ func (c20) Budget(tier string) runner.Budget {
 
 func (c20) Describe() runner.Description {
 	return runner.Description{
-		Rule: "each plan: 2..14 blocks (mostly one transaction per block, some with 2-4) of miner apply (validator/proposer; stake below/at/above minimum; id already registered; account already controlling a miner of either type), add-stake (own/other/unknown miner, insufficient balance), refund (part, all, MaxUint64, more than stake, by non-owner, below minimum), change-account (free/occupied target), interleaved with transfers; heights advance by one or jump to a pending escrow release height; restarts between blocks; seeded map order. After every block, on the committed state: lookup by id (two ways), by account and by iteration return the ledger's record (stake = applied + added - refunded, account, type); totals used for leader election equal the sum over active records; no account controls two miners; liquid balances moved by exactly released escrow minus stake locked; refund escrow grew by exactly the refunded amount; and a block whose only transaction was rejected leaves everything but fee/nonce of the sender as in a twin execution without it. distinct_nontrivial = distinct (tx kind, accepted/rejected) sequences containing at least one accepted and one rejected miner transaction.",
+		Rule:        "each plan: 2..14 blocks (mostly one transaction per block, some with 2-4) of miner apply (validator/proposer; stake below/at/above minimum; id already registered; account already controlling a miner of either type), add-stake (own/other/unknown miner, insufficient balance), refund (part, all, MaxUint64, more than stake, by non-owner, below minimum), change-account (free/occupied target), interleaved with transfers; heights advance by one or jump to a pending escrow release height; restarts between blocks; seeded map order. After every block, on the committed state: lookup by id (two ways), by account and by iteration return the ledger's record (stake = applied + added - refunded, account, type); totals used for leader election equal the sum over active records; no account controls two miners; liquid balances moved by exactly released escrow minus stake locked; refund escrow grew by exactly the refunded amount; and a block whose only transaction was rejected leaves everything but fee/nonce of the sender as in a twin execution without it. distinct_nontrivial = distinct (tx kind, accepted/rejected) sequences containing at least one accepted and one rejected miner transaction.",
 		Assumptions: []string{"the ledger does not predict acceptance (minimum stakes, status transitions are the implementation's); it observes receipts and rules only on double control of an account and refunds above the stake", "the sender's nonce bump of a failed transaction is transaction bookkeeping, not registry/stake accounting"},
 		Real:        []string{"executor (miner apply/add/refund/change-account, operator)", "service MinerManager / RefundManager / RewardCalculator", "core/vmexecutor", "storage/account + trie on goleveldb over simulated storage"},
 		Stub:        []string{"ConsensusHelper", "network", "NTP clock"},
@@ -477,6 +479,21 @@ func (c20) Exec(raw json.RawMessage, st *simrt.Stats, log *simrt.Log) *simrt.Vio
 		}
 		if total != exp || len(detail) != expN {
 			return viol(bi, "total-stake-mismatch", "proposers", "GetProposerTotalStakeWithDetail = %d over %d proposers, sum over active ledger records = %d over %d", total, len(detail), exp, expN)
+		}
+		// the same figures through the reader the consensus layer uses (by state root)
+		rd := access.SimNewMinerPoolReader()
+		if got := rd.GetTotalStake(height, ec.root); got != uint64(expN) {
+			return viol(bi, "total-stake-mismatch", "consensus-reader-proposer-count", "MinerPoolReader.GetTotalStake (number of counted proposers) = %d, active proposer records in the ledger: %d", got, expN)
+		}
+		for id, m := range led {
+			if m.typ != common.MinerTypeProposer || m.genesis {
+				continue
+			}
+			mi := rd.GetProposeMiner(groupsig.DeserializeID(common.FromHex(id)), ec.root)
+			rec := mm.GetMinerById(common.FromHex(id), m.typ, post)
+			if (mi == nil) != (rec == nil) || (mi != nil && (mi.Stake != m.stake || mi.MinerType != m.typ)) {
+				return viol(bi, "record-mismatch", "consensus-reader", "MinerPoolReader.GetProposeMiner(%s) disagrees with the ledger (stake %d)", id[:10], m.stake)
+			}
 		}
 		// conservation: liquid moved by released escrow minus locked stake
 		for a := range universe {
